@@ -20,4 +20,16 @@ PROPS = {
         level_text="TODO", level_note="TODO",
         assumptions=[],
     ),
+    "C02": dict(
+        imports="Base.Path KV.Types KV.FS KV.Handle KV.Run KV.Corr", check="C01_check", ctype="kv_case",
+        show="run kv_init (fst c)", n=dict(quick=500, thorough=10000), chunk=100,
+        rule="random handle histories: 1..3 handles on one file (all access modes x APPEND x TRUNC x CREATE), reads/writes/seeks/truncates with offsets -2..size+40, buffer lengths 0..16; distinct = distinct term",
+        level_text="TODO", level_note="TODO", assumptions=[],
+    ),
+    "C17": dict(
+        imports="Base.Path KV.Types KV.FS KV.Handle KV.Run KV.Corr", check="C01_check", ctype="kv_case",
+        show="run kv_init (fst c)", n=dict(quick=500, thorough=10000), chunk=100,
+        rule="random handle histories mixing Close (then every method), Remove/Rename of the handle's path and I/O through the older handle; distinct = distinct term",
+        level_text="TODO", level_note="TODO", assumptions=[],
+    ),
 }
